@@ -407,7 +407,32 @@ def shards(tier, seed):
         out.append(dict(kind='hyp', seed=seed * 1000 + k,
                         n=3000 if tier == 'quick' else 40000))
     out.append(dict(kind='purity'))
+    out.append(dict(kind='numpy', ops=BINOPS[:6]))
+    out.append(dict(kind='numpy', ops=BINOPS[6:] + UNOPS))
     return out
+
+
+def to_np(v):
+    """the numpy scalar pycel's own functions (SLOPE, FACTDOUBLE, ...) would
+    leave in a cell for this number"""
+    import numpy as np
+    if type(v) is int:
+        return np.int64(v)
+    if type(v) is float:
+        return np.float64(v)
+    return v
+
+
+def run_numpy(rec, env, op, a, b):
+    """the python type that holds a number is irrelevant: same verdict with
+    numpy-typed operands (judged against the reference for the plain values)"""
+    text = formula_for(op, 'A1', 'B1')
+    variants = [(to_np(a), to_np(b))]
+    if type(a) in (int, float) and type(b) in (int, float):
+        variants += [(to_np(a), b), (a, to_np(b))]
+    for k, (na, nb) in enumerate(variants):
+        run_case(rec, env, op, a, b, f'numpy{k}',
+                 lambda: env.eval(text, {'A1': na, 'B1': nb}))
 
 
 def run_shard(shard, rec):
@@ -415,6 +440,19 @@ def run_shard(shard, rec):
         from vlib import purity
         return purity.run(rec, ID, PURITY_TEMPLATES)
     kind = shard['kind']
+    if kind == 'numpy':
+        env = FastEnv()
+        for op in shard['ops']:
+            for a, b in itertools.product(POOL, repeat=2):
+                if op in UNOPS:
+                    if a is not POOL[0]:
+                        continue
+                    a = None
+                if type(a) in (int, float) or type(b) in (int, float):
+                    run_numpy(rec, env, op, a, b)
+        rec.exhaustive.append(f'ops {shard["ops"]} x pool^2 with numpy-typed '
+                              f'numeric operands')
+        return
     if kind == 'refs':
         env = FastEnv()
         for op in shard['ops']:
@@ -491,7 +529,9 @@ def _replay(case, rec):
         check_laws(rec, table, pool)
         return
     form = case.get('form', 'ref')
-    if form == 'literal':
+    if form.startswith('numpy'):
+        run_numpy(rec, FastEnv(), op, a, b)
+    elif form == 'literal':
         run_pool_literals(rec, [a, b], [(op, 0, 1)])
     elif form == 'workbook':
         run_pool_workbook(rec, [a, b], [(0, 1)])
